@@ -202,3 +202,65 @@ func validateEntryOracle(x *X, data []byte, chunk int, hist string) {
 		}
 	}
 }
+
+// buildEntryOracle presents the serialised envelope to the build entry
+// points. Whatever build answers with has been validated by it: the library
+// must find the answer valid too (a build that validates one state and hands
+// out another is caught here).
+func buildEntryOracle(x *X, data []byte, chunk int, hist string) {
+	for _, ep := range []string{epCLI, epBulk, epCobra} {
+		var out []byte
+		var detail string
+		p := safely(func() {
+			switch ep {
+			case epCLI:
+				res, err := cli.Build(context.Background(), &cli.BuildOptions{ParseOptions: &cli.ParseOptions{Input: chunkedReader(x, "build-in", data, chunk)}})
+				if err != nil {
+					detail = errStr(err)
+					return
+				}
+				out, _ = json.Marshal(res)
+			case epBulk:
+				res, err := bulkOne(x, map[string]any{"action": "build", "req_id": "b", "payload": map[string]any{"data": data}}, chunk, nil)
+				if err != nil {
+					detail = err.Error()
+					return
+				}
+				if res.Error != nil {
+					detail = res.Error.Error()
+					return
+				}
+				out = res.Payload
+			case epCobra:
+				o, e := NewSimWriter(x, "stdout"), NewSimWriter(x, "stderr")
+				if err := Cobra(context.Background(), []string{"build", "-"}, chunkedReader(x, "stdin", data, chunk), o, e); err != nil {
+					detail = errStr(err)
+					return
+				}
+				out = o.Bytes()
+			}
+		})
+		x.Probe("build-through-entry-point")
+		if p != "" {
+			x.Violate("build-entry:panic:"+ep, "building through %s panicked: %s\n  history: %s", ep, trunc(p, 200), hist)
+			continue
+		}
+		if out == nil {
+			_ = detail
+			x.Probe("build-through-entry-point-refused")
+			continue
+		}
+		env, err := ParseEnv(out)
+		if err != nil {
+			x.Violate("build-entry:unreadable:"+ep, "what build through %s answered is not an envelope: %v\n  history: %s", ep, err, hist)
+			continue
+		}
+		var verr error
+		if p := safely(func() { verr = env.Validate() }); p != "" {
+			continue
+		}
+		if verr != nil {
+			x.Violate("build-entry:invalid-answer:"+ep+":"+errKey(verr), "build through %s succeeded, but Envelope.Validate refuses what it answered with: %v\n  history: %s", ep, verr, hist)
+		}
+	}
+}
